@@ -83,7 +83,19 @@ func RunWorker(prop, tier string, shard, nshards int, deadline time.Time) int {
 	keys := map[uint64]struct{}{}
 	rl := newRaceLog()
 	raceSeen := map[string]bool{}
-	for _, pl := range pf(tier) {
+	allPlans := pf(tier)
+	budget := time.Until(deadline)
+	for pi, pl := range allPlans {
+		// every scenario gets its fair share of what is left of the budget: a scenario whose exploration does not
+		// end (because the tree under test made its schedule space explode) must not starve the ones behind it
+		planDeadline := deadline
+		if left := time.Until(deadline); left > 0 && len(allPlans)-pi > 1 {
+			// (a reserve of budget/(3n) per scenario still to come; everything else may be used by this one)
+			reserve := time.Duration(len(allPlans)-pi-1) * (budget / time.Duration(3*len(allPlans)))
+			if reserve < left {
+				planDeadline = deadline.Add(-reserve)
+			}
+		}
 		if b, err := strconv.Atoi(os.Getenv("VERIF_BOUND")); err == nil {
 			pl.Bound = b // experiments: override the preemption bound (-1 = unbounded)
 		}
@@ -172,7 +184,7 @@ func RunWorker(prop, tier string, shard, nshards int, deadline time.Time) int {
 			emit("E", map[string]any{"scenario": sc.Name, "error": fmt.Sprintf("non-deterministic default schedule: %d/%d steps", x1.Steps, x2.Steps)})
 			continue
 		}
-		e := &Explorer{Sc: sc, Bound: pl.Bound, Deadline: deadline, Stats: stats, HBCache: true, seen: map[uint64]int{}}
+		e := &Explorer{Sc: sc, Bound: pl.Bound, Deadline: planDeadline, Stats: stats, HBCache: true, seen: map[uint64]int{}}
 		e.OnExec = func(choices []int, x *vsched.Exec, v Verdict) { report(choices, x, v) }
 		cur = e
 		// level 0 and 1 are run by every worker (cheap) but only reported by their owner;
